@@ -73,15 +73,50 @@ def column(kind, vals):
     return a.view(di.DataFrameColumn)
 
 
+def _strided(a):
+    """The same values as a non-contiguous view (every other element of a buffer twice as long)."""
+    buf = np.empty(2 * len(a), dtype=a.dtype)
+    buf[::2] = a
+    buf[1::2] = a
+    return buf[::2]
+
+
 def frame(fp, rid="_rid_"):
-    """fp = {"cols": [{"name", "kind", "vals"}, ...]}; a row-id column is appended when rid."""
+    """
+    fp = {"cols": [{"name", "kind", "vals"}, ...]}; a row-id column is appended when rid.
+    Optional fp["layout"]: "strided" (columns are non-contiguous views) / "readonly" is left to the checks;
+    optional fp["via"]: how the frame object came to be (see VIA) - the same table, another history.
+    """
     cols = {}
     n = fp_nrow(fp)
     for c in fp["cols"]:
-        cols[c["name"]] = column(c["kind"], c["vals"])
+        a = np_array(c["kind"], c["vals"])
+        if fp.get("layout") == "strided" and len(a):
+            a = _strided(a)
+        cols[c["name"]] = a.view(di.DataFrameColumn)
     if rid:
         cols[rid] = np.arange(n).view(di.DataFrameColumn)
-    return di.DataFrame(cols)
+    data = di.DataFrame(cols)
+    via = fp.get("via")
+    if via:
+        try:
+            derived = VIA[via](data)
+            if snap_frame(derived) == snap_frame(data):      # otherwise the deriving method itself is broken: not the subject here
+                return derived
+        except Exception:
+            pass
+    return data
+
+
+VIA = {
+    "copy": lambda d: d.copy(),
+    "deepcopy": lambda d: d.deepcopy(),
+    "slice_all": lambda d: d.slice(list(range(d.nrow))),
+    "filter_all": lambda d: d.filter(np.ones(d.nrow, dtype=bool)),
+    "select_all": lambda d: d.select(*dict.keys(d)),
+    "rbind_halves": lambda d: d.head(d.nrow // 2).rbind(d.tail(d.nrow - d.nrow // 2)),
+    "modify_nothing": lambda d: d.modify(),
+}
 
 
 def fp_nrow(fp):
